@@ -130,6 +130,10 @@ def run(S):
         'literal tokens start and end with a non-blank character (string quotes, raw fences, digits, identifier characters, label brackets)',
         'one character of context on each side of the literal suffices because strip_trailing_whitespace is line-local (decided in C11/C03 obligations)',
     ]
+    # the library skeleton: every entry point builds its formatter through Typstyle::new, which must keep the configuration (the reorder flag among it),
+    # and returns exactly strip(render(..)) - nothing is done to the text (and so to the literals in it) after the post-processing
+    from . import libskel as _ls
+    _ls.run(S, want_witness=False)
     return S.finish(level='other', explanation=EXPLANATION, trusted=['mirsym encoder', 'std string contracts', 'Doc algebra contracts'])
 
 
